@@ -34,7 +34,7 @@ type c01Case struct {
 var c01AltKinds = []string{
 	"none", "neutral",
 	"content", "content", "content", "content", "payload-bytes", "inmemory",
-	"sig-drop", "sig-flip", "sig-swap", "sig-retarget", "sig-empty", "sig-junk-first", "sig-dup-for-missing", "inmemory", "stranger-relabelled-sig", "sig-undecodable", "sig-undecodable",
+	"sig-drop", "sig-flip", "sig-swap", "sig-retarget", "sig-empty", "sig-junk-first", "sig-dup-for-missing", "inmemory", "stranger-relabelled-sig", "sig-undecodable", "sig-undecodable", "dsse-two-payload-members", "dsse-two-payload-members",
 	"keys-empty", "keys-add-nonsigner", "keys-stranger", "keys-pubswap", "keys-subset", "keys-unknown-type", "keys-unknown-type",
 }
 
@@ -176,6 +176,7 @@ func c01Eval(c c01Case, r *hx.Rec, enum *hx.TreeMutation) error {
 	isDSSE := w.Layout.Wrapper == "dsse"
 	sigField := func(top map[string]any) []any { s, _ := top["signatures"].([]any); return s }
 	var inMemory intoto.Metadata
+	forgedProbe := false
 	switch alt.Kind {
 	case "neutral":
 		if isDSSE {
@@ -331,6 +332,39 @@ func c01Eval(c c01Case, r *hx.Rec, enum *hx.TreeMutation) error {
 			}
 			return true
 		})
+	case "dsse-two-payload-members":
+		// a second member that differs from "payload" only in letter case holds a forged layout (no steps,
+		// one inspection that writes FORGED into the log); the signatures are those of the genuine payload
+		if !isDSSE {
+			applied = false
+			break
+		}
+		raw, rerr := os.ReadFile(b.LayoutPath)
+		if rerr != nil {
+			return fmt.Errorf("harness: %v", rerr)
+		}
+		var top map[string]json.RawMessage
+		if json.Unmarshal(raw, &top) != nil {
+			applied = false
+			break
+		}
+		forged := map[string]any{"_type": "layout", "expires": hx.FarFuture, "readme": "forged", "keys": map[string]any{}, "steps": []any{},
+			"inspect": []any{map[string]any{"_type": "inspection", "name": "forged", "run": []any{b.Subst("@EMIT@"), b.Subst("log:@LOG@:FORGED")},
+				"expected_materials": []any{[]any{"ALLOW", "*"}}, "expected_products": []any{[]any{"ALLOW", "*"}}}}}
+		fb, _ := json.Marshal(forged)
+		forgedMember, _ := json.Marshal(base64Std(fb))
+		genuine := string(top["payload"])
+		var text string
+		names := [][2]string{{"payload", "Payload"}, {"PAYLOAD", "payload"}, {"payload", "pAyload"}}[alt.A%3]
+		if alt.B%2 == 0 {
+			text = fmt.Sprintf(`{"payloadType": %s, %q: %s, %q: %s, "signatures": %s}`, top["payloadType"], names[0], forgedMember, names[1], genuine, top["signatures"])
+		} else {
+			text = fmt.Sprintf(`{"payloadType": %s, %q: %s, "signatures": %s, %q: %s}`, top["payloadType"], names[0], genuine, top["signatures"], names[1], forgedMember)
+		}
+		if werr := os.WriteFile(b.LayoutPath, []byte(text), 0o644); werr != nil {
+			return fmt.Errorf("harness: %v", werr)
+		}
+		forgedProbe = true
 	case "sig-junk-first":
 		applied, err = editFile(b.LayoutPath, hx.JSONStyle{Indent: 1}, func(top map[string]any) bool {
 			s := sigField(top)
@@ -402,6 +436,28 @@ func c01Eval(c c01Case, r *hx.Rec, enum *hx.TreeMutation) error {
 		return fmt.Errorf("harness: edit: %v", err)
 	}
 
+	if forgedProbe {
+		// whichever member the loader takes: what is enforced must be what the signatures cover
+		b.StepName = c.StepName
+		out := b.Verify()
+		r.Label("wrapper=%s", w.Layout.Wrapper)
+		r.Label("alt=%s", alt.Kind)
+		r.Nontrivial()
+		if out.Panic != nil {
+			return fmt.Errorf("alteration %s: verification panicked: %v", c01Describe(alt), out.Panic)
+		}
+		for _, l := range out.Log {
+			if l == "FORGED" {
+				return fmt.Errorf("alteration %s: the inspection of the forged payload member was executed under the signatures of the genuine one (verdict: %s)", c01Describe(alt), out)
+			}
+		}
+		if !out.Rejected() {
+			if want := w.InspectionNames(); !reflect.DeepEqual(append([]string{}, out.Log...), append([]string{}, want...)) && !(len(out.Log) == 0 && len(want) == 0) {
+				return fmt.Errorf("alteration %s: accepted, but the inspections executed are %v, the signed layout lists %v", c01Describe(alt), out.Log, want)
+			}
+		}
+		return nil
+	}
 	// ---- independent ground truth
 	ok := len(w.VerifierKeys) > 0
 	truthSrc := "file"
